@@ -33,7 +33,7 @@ m = {
          "kind_free_text": "Lean 4 model + theorems (lean/), translator (tools/gen.py), Rust correspondence harness with direct oracles (harness/)"}
     ],
     "checks": checks,
-    "notes": "fix: commits in /repo: ec0f4ed 8438b70 91419c0 0e40388 9040ff3 (see known_findings.json). Open findings F4 (C03/C19) and F8 (C06/C11) are printed as KNOWN-FINDING.",
+    "notes": "fix: commits in /repo: ec0f4ed 8438b70 91419c0 0e40388 9040ff3 (see known_findings.json). Open findings F4 (C03/C19) and F8 (C06/C11) are printed as KNOWN-FINDING. Other informational lines a check may print with exit 0: TIE-DEGRADED (a generated model item kept its previous text because its source pattern was not recognised; the widened campaign agreed) and SOURCE-CHANGED (function texts differ from tools/source_baseline.json; the widened campaign was run and agreed). See DESIGN.md II.2, II.8.",
     "not_applicable": [],
 }
 json.dump(m, open(os.path.join(ROOT, "MANIFEST.json"), "w"), indent=1)
